@@ -39,6 +39,9 @@ THEOREMS = [
     'CpProofs.C20.C20_block_returns',
     'CpProofs.C20.C20_block_only_after_exiting',
     'CpProofs.C20.C20_execv_iff_restart',
+    'CpProofs.C20.C20_block_joins_only_nondaemon',
+    'CpProofs.C20.C20_block_waits_for_foreign',
+    'CpProofs.C20.C20_execv_after_joins',
     'CpProofs.C20.C20_thread_notifications',
     'CpProofs.C20.C20_thread_notifications_quiescent',
     'CpProofs.C20.C20_thread_notifications_partial',
@@ -455,15 +458,11 @@ class _ThreadingShim:
         S.ypoint(('enumerate',))
         self._c20run.left_loop('enumerate')
         me = self._real.current_thread()
-        out = [self._real.main_thread()]
+        out = [self._real.main_thread(), me]
         x = self._c20run.s.recs.get('x')
-        for f in self._c20run.foreign[:1]:
-            out.append(f)
-        out.append(me)
         if x is not None:
-            out.append(x.thread)
-        out += self._c20run.foreign[1:]
-        return [t for t in out if t is me or t is self._real.main_thread() or t.is_alive()]
+            out.append(x.thread)        # (daemonic; listed whether or not it has finished: never joined)
+        return out + [f for f in self._c20run.foreign if f.is_alive()]
 
 
 class RunB(RunBase):
@@ -568,9 +567,8 @@ class RunB(RunBase):
         o = 'S=%s;X=%d;P=%d;D=%d;M=%d;R=%d;E=%s' % (self.state(), 1 if self.bus.__dict__.get('execv') else 0,
                                                     self.pubs, 1 if self.execv_done else 0,
                                                     1 if (m.done and m.exc is None) else 0, self.xrets, e)
-        if self.foreign:
-            o += ';F=' + ''.join('%d' % (1 if f.done else 0) for f in self.foreign) + \
-                 ';J=' + (','.join(self.joined) or '-')
+        o += ';F=' + ''.join('%d' % (1 if f.done else 0) for f in self.foreign) + \
+             ';J=' + (','.join(self.joined) or '-')
         if m.exc is not None:
             o += ';MX=1'
         return o
@@ -593,6 +591,11 @@ def oracle_B(case, run):
     if run.t_exiting is not None and not m.done and not pending_foreign and run.m_steps_after_exiting >= limit:
         bad.append(('the bus is EXITING and the main thread took %d more steps, but block() has not returned'
                     % run.m_steps_after_exiting, 'B:block_does_not_return'))
+    blk = m.blocked_on
+    if run.t_exiting is not None and not m.done and not pending_foreign and blk is not None and not blk.done:
+        bad.append(('the bus is EXITING and every non-daemon thread of the application has finished, but block() '
+                    'waits for %s' % ('daemon thread ' + blk.fid if isinstance(blk, _Foreign) else 'a bus thread'),
+                    'B:block_does_not_return'))
     if m.done:
         want = 'restart' in case['calls']
         if bool(run.execv_done) != want:
@@ -605,9 +608,11 @@ def oracle_B(case, run):
 
 
 def tail_B(case):
+    # the non-daemon foreign threads finish at last; daemonic ones may run for ever
     t = ['x'] * 40 + ['m'] * 16
-    for i in range(len(case.get('foreign', ''))):
-        t += ['f%d' % (i + 1)] + ['m'] * 6
+    for i, ch in enumerate(case.get('foreign', '')):
+        if ch == 'n':
+            t += ['f%d' % (i + 1)] + ['m'] * 8
     return t
 
 
@@ -813,7 +818,7 @@ def model_line(case, trace):
     if k == 'M':
         return 'AM %s %d %d %s %s' % (modes()['M'], case['freq'], case['daemon'], ','.join(case['calls']) or '-', trace)
     if k == 'B':
-        return 'AB %s %s' % (','.join(case['calls']) or '-', trace)
+        return 'AB %s %s %s' % (','.join(case['calls']) or '-', case.get('foreign') or '-', trace)
     return 'AT %s %d %s %s' % (modes()['T'], case['nstops'], '/'.join(case['scripts']) or '-', trace)
 
 
@@ -832,7 +837,7 @@ def comparable(case):
     return True
 
 
-MODEL_HAS = {'boom': True}
+MODEL_HAS = {'boom': True, 'foreign': True}
 
 
 def execute(case):
@@ -1053,6 +1058,10 @@ def gen_random(ctx, kind, n):
         elif kind == 'B':
             case = {'k': 'B', 'calls': rng.choice(B_SEQS),
                     'sched': rand_sched(rng, ['m', 'x'], rng.randint(3, 40))}
+            if rng.random() < 0.3:
+                case['foreign'] = ''.join(rng.choice('nd') for _ in range(rng.randint(1, 3)))
+                names = ['m', 'm', 'x', 'x'] + ['f%d' % (i + 1) for i in range(len(case['foreign']))]
+                case['sched'] = rand_sched(rng, names, rng.randint(3, 50))
         else:
             nthreads = rng.randint(2, 4)
             scripts = [rng.choice(['ar', 'ar', 'a', 'aar', 'ara', 'arar', 'r']) for _ in range(nthreads)]
@@ -1138,6 +1147,17 @@ def all_cases(ctx):
     for calls in B_SEQS:
         cases += list(gen_B_systematic(calls, (0, 1, 2, 3, 4) if quick else range(0, 8),
                                        range(0, 22, 2 if quick else 1)))
+    # B with foreign threads of the embedding application (n = non-daemon, d = daemon) that finish at some point
+    # of the schedule (or never): which of them block() joins, and that it returns / re-execs only afterwards
+    for calls, foreign in ((['exit'], 'n'), (['restart'], 'nd'), (['restart'], 'dn'), (['stop', 'exit'], 'nn'),
+                           (['exit'], 'd'), (['restart'], 'ndn')):
+        for pre in ([], ['f1'], ['f2']):
+            for mid in ([], ['f1'], ['f1', 'f2', 'f3'], ['f2', 'f1']):
+                for a in ((0, 3) if quick else range(0, 5)):
+                    for b in ((4, 8, 12) if quick else range(0, 14, 2)):
+                        for late in ((4, 7, 12) if quick else range(2, 14, 2)):
+                            cases.append({'k': 'B', 'calls': calls, 'foreign': foreign,
+                                          'sched': pre + ['m'] * a + ['x'] * b + ['m'] * late + mid + ['m'] * 8})
     # T
     for scripts in T_SCRIPTS:
         if modes()['T'] == 'asIs' and sum(s.count('a') for s in scripts) > 5:
